@@ -1,6 +1,7 @@
 package main
 
 import (
+	"bytes"
 	"encoding/json"
 	"fmt"
 	"log/slog"
@@ -246,6 +247,35 @@ func execC05Raw(c *child.Ctx, t int, raw []byte) {
 }
 
 func monC05(c *child.Ctx, replay json.RawMessage) {
+	if replay != nil && hasKey(replay, "frames_back_to_back_in_one_buffer") {
+		var kc struct {
+			Buf string `json:"frames_back_to_back_in_one_buffer"`
+		}
+		json.Unmarshal(replay, &kc)
+		c.Begin(replay)
+		buf := unhex(kc.Buf)
+		whole := append([]byte(nil), buf...)
+		for off := 0; off+6 <= len(buf) && buf[off] == 0xd3; {
+			n := int(buf[off+1]&3)<<8 | int(buf[off+2])
+			if off+n+6 > len(buf) {
+				break
+			}
+			t := ref.TypeOf(whole[off : off+n+6])
+			var e1, e2 error
+			func() {
+				defer func() { recover() }()
+				_, _, e1 = decodeBaseDirect(t, buf[off:off+n+6], slog.LevelInfo)
+				_, _, e2 = decodeBaseDirect(t, append([]byte(nil), whole[off:off+n+6]...), slog.LevelInfo)
+			}()
+			if (e1 == nil) != (e2 == nil) || !bytes.Equal(buf, whole) {
+				c.Violate("field-mismatch", fmt.Sprintf("the frame at offset %d decodes differently from a sub-slice of the buffer than from a slice of its own, or decoding changed the buffer: %s", off, firstDiff(buf, whole)), replay)
+				break
+			}
+			off += n + 6
+		}
+		c.Eval(1, true)
+		return
+	}
 	if replay != nil {
 		if hasKey(replay, "raw_frame_prefix") {
 			var rk rawBaseCase
@@ -397,6 +427,66 @@ func monC05(c *child.Ctx, replay json.RawMessage) {
 				break
 			}
 		}
+	}
+	// messages lying one behind the other in one read buffer, each decoded from its own
+	// sub-slice (whose spare capacity is the rest of the buffer): the later ones still
+	// decode, and the buffer is left as it was
+	nb := c.Share(c.Pick(20000, 400000))
+	for i := 0; i < nb && c.NViolations() == 0; i++ {
+		var bs []*ref.Base
+		var frames [][]byte
+		var buf []byte
+		for j := r.Range(2, 4); j > 0; j-- {
+			t := 1005 + r.Intn(2)
+			b := gen.RandBase(r, t)
+			if r.Chance(2, 3) {
+				b.Trailing = r.Bytes(r.Intn(3))
+			}
+			f := ref.Frame(ref.EncodeBase(b, t))
+			bs = append(bs, b)
+			frames = append(frames, f)
+			buf = append(buf, f...)
+		}
+		buf = append(buf, r.Bytes(12)...)
+		whole := append([]byte(nil), buf...)
+		cj, _ := json.Marshal(map[string]interface{}{"frames_back_to_back_in_one_buffer": hexs(whole)})
+		if i%256 == 0 {
+			c.Begin(cj)
+		}
+		off := 0
+		for j, f := range frames {
+			sub := buf[off : off+len(f)]
+			var fl *baseFields
+			var err error
+			panicked := ""
+			func() {
+				defer func() {
+					if rr := recover(); rr != nil {
+						panicked = fmt.Sprint(rr)
+					}
+				}()
+				fl, _, err = decodeBaseDirect(bs[j].Type, sub, slog.LevelInfo)
+			}()
+			switch {
+			case panicked != "":
+				c.Violate("panic", "decoder panicked on a frame that is a sub-slice of a read buffer: "+panicked, cj)
+			case err != nil:
+				c.Violate("well-formed-rejected", fmt.Sprintf("frame %d of %d lying back to back in one buffer (type %d, decoded in order, each from its own sub-slice) is rejected: %v", j+1, len(frames), bs[j].Type, err), cj)
+			default:
+				if why := checkBaseFields(bs[j], fl); why != "" {
+					c.Violate("field-mismatch", fmt.Sprintf("frame %d of %d lying back to back in one buffer: %s", j+1, len(frames), why), cj)
+				}
+			}
+			if !bytes.Equal(buf, whole) {
+				c.Violate("field-mismatch", fmt.Sprintf("decoding frame %d of %d (type %d) from a sub-slice of a buffer changed the buffer: %s", j+1, len(frames), bs[j].Type, firstDiff(buf, whole)), cj)
+			}
+			if c.NViolations() > 0 {
+				break
+			}
+			off += len(f)
+		}
+		c.Count("frames_decoded_back_to_back", int64(len(frames)))
+		c.EvalN(1)
 	}
 	// several goroutines displaying their own messages at the same time (the proxy's
 	// sessions, the filter's display and report): each text is that of its own message
